@@ -37,6 +37,7 @@ from ..utils import (
     suppress_body,
     UnexpectedMessageError,
     valid_server_name,
+    validate_header_name,
     validate_header_part,
 )
 
@@ -134,8 +135,8 @@ class Handshake:
 
         for name, value in additional_headers:
             # Checked on the name as it would be sent (stripped)
-            validated_name = validate_header_part(name)
-            if b"sec-websocket-protocol" == validated_name or validated_name[:1] in {b"", b":"}:
+            validated_name = validate_header_name(name)
+            if b"sec-websocket-protocol" == validated_name:
                 raise Exception(f"Invalid additional header, {validated_name.decode()}")
 
             headers.append((validated_name, validate_header_part(value)))
